@@ -7,6 +7,7 @@
 // Line syntax and output: see lean/Driver/C04.lean.
 #include <thread>
 #include "attr_util.h"
+#include "park.h"
 #include "opentelemetry/sdk/common/global_log_handler.h"
 #include "opentelemetry/sdk/resource/resource.h"
 #include "opentelemetry/sdk/trace/batch_span_processor.h"
@@ -276,7 +277,9 @@ static std::string handle(const std::vector<std::string> &toks)
     else
     {
       trace_sdk::BatchSpanProcessorOptions o;
-      o.schedule_delay_millis = std::chrono::milliseconds(3600 * 1000);  // exports only when flushed
+      // exports when flushed; the timer is only a safety net: BatchSpanProcessor::ForceFlush re-polls with this period
+      // when its wake-up of the worker is lost (the worker was between its predicate check and its wait)
+      o.schedule_delay_millis = std::chrono::milliseconds(2000);
       inner.reset(new trace_sdk::BatchSpanProcessor(std::move(exp), o));
     }
     processors.emplace_back(new Counting(std::move(inner), log));
@@ -310,6 +313,12 @@ static std::string handle(const std::vector<std::string> &toks)
     links.reset();
   }
   std::vector<std::string> rec;
+  const bool has_batch = procs.find('b') != std::string::npos;
+  auto flush           = [&]() {
+    // let a just-started / just-finished batch worker reach its wait, so that ForceFlush's wake-up is not lost
+    if (has_batch) vh::wait_parked();
+    provider->ForceFlush();
+  };
   for (auto &op : ops)
   {
     auto run = [&]() {
@@ -339,19 +348,22 @@ static std::string handle(const std::vector<std::string> &toks)
         eo.end_steady_time = common::SteadyTimestamp(std::chrono::nanoseconds(op.n));
         span->End(eo);
       }
-      else if (op.kind == "flush") provider->ForceFlush();
+      else if (op.kind == "flush") flush();
       else if (op.kind == "isrec") rec.push_back(span->IsRecording() ? "1" : "0");
       // s1 and every value block die here, right after the call
     };
     if (op.thread >= 0)
     {
-      std::thread t(run);
+      std::thread t([&]() {
+        vh::register_own_thread();
+        run();
+      });
       t.join();
     }
     else run();
   }
   span = nostd::shared_ptr<trace_api::Span>(nullptr);  // last reference: ~Span -> End()
-  provider->ForceFlush();
+  flush();
   std::string out = "rec=[" + vh::join(rec, ",") + "]";
   for (size_t i = 0; i < logs.size(); i++)
   {
@@ -373,5 +385,6 @@ int main()
 {
   opentelemetry::sdk::common::internal_log::GlobalLogHandler::SetLogLevel(
       opentelemetry::sdk::common::internal_log::LogLevel::None);
+  vh::register_own_thread();
   return vh::run_lines(handle);
 }
